@@ -4,7 +4,8 @@
 translate:      harness/translate_styles.py -> lean/OdfModel/Generated/StyleRefs.lean (schema style-reference
                 attributes from the .rng, followed attributes MEASURED on the real `_used_auto_styles` and
                 cross-checked with the AST of `_STYLE_REF_ATTRS` / `_STYLE_REF_LIST_ATTRS`, separators of str.split)
-proof:          lean/OdfModel/Props/C10.lean about lean/OdfModel/Styles.lean; lean/OdfModel/Props/C10Hist.lean: histories of one
+proof:          lean/OdfModel/Props/C10Deep.lean: a reference below any number of levels of nesting is collected, its style written;
+                lean/OdfModel/Props/C10.lean about lean/OdfModel/Styles.lean; lean/OdfModel/Props/C10Hist.lean: histories of one
                 document object (saves, saves that fail part-way, additive edits): the retry writes what a first save writes,
                 what was written stays written, a style added after a failed save and referenced from new content is written
 correspondence: the name list the real `_used_auto_styles` ends with (captured from `_stylerefs_of` /
@@ -17,6 +18,8 @@ oracle:         save() the document, parse content.xml / styles.xml with expat, 
                 Histories: the same oracle on the save that ends a history of failed saves (a file object whose write()
                 raises inside each member of the package; a node that cannot be rendered) and edits, compared with the
                 first save of a never saved twin with the same edits; the tree after the history goes to the model too.
+                Deep nesting (oracle_deep): documents nested up to and beyond the recursion limit; a save that returns is held to
+                the same clauses by an iterative oracle on flat event lists (signatures deep-nesting:*); a save that raises is fine.
 """
 import io, zipfile, json, re
 import xml.parsers.expat
@@ -435,15 +438,18 @@ class Coder(object):
 
 
 def dump_node(n, coder, out):
-    if n.nodeType == 1:
-        out.append('E'); out.append(str(coder.e(n.qname))); out.append(str(len(n.attributes)))
-        for q, v in n.attributes.items():
-            out.append(str(coder.a(q))); out.append(enc_str(u'%s' % (v,)))
-        out.append(str(len(n.childNodes)))
-        for c in n.childNodes:
-            dump_node(c, coder, out)
-    else:
-        out.append('T'); out.append(enc_str(n.data))
+    """the wire form of a real tree (pre-order; an explicit stack, so that the nesting depth of the tree does not matter)"""
+    todo = [n]
+    while todo:
+        n = todo.pop()
+        if n.nodeType == 1:
+            out.append('E'); out.append(str(coder.e(n.qname))); out.append(str(len(n.attributes)))
+            for q, v in n.attributes.items():
+                out.append(str(coder.a(q))); out.append(enc_str(u'%s' % (v,)))
+            out.append(str(len(n.childNodes)))
+            todo.extend(reversed(list(n.childNodes)))
+        else:
+            out.append('T'); out.append(enc_str(n.data))
     return out
 
 
@@ -1220,6 +1226,329 @@ def gen_history_random(rng, T):
     return recipe, hist, info
 
 
+# ------------------------------------------------------------------ nesting depths around and beyond the interpreter's limits
+# The property quantifies over every document; it has no clause about how deep the content is nested.  A document whose body (or
+# master page) is nested some hundred levels deep takes the recursive functions of the library (the reference scan, toXml) to the
+# interpreter's recursion limit and beyond.  From the property text alone: a save() of such a document either does not happen
+# (it raises - nothing the property speaks about exists then) or writes a package in which every automatic style the body / the
+# master styles refer to is in the part that refers to it, with its definition, once.
+# A case is pure data: {'deep': {'shape', 'depth', 'side', 'ref', 'chain', 'limit', 'entry'}}
+#   shape   the elements that make up the nesting (cycled), `depth` of them below the holder; the only reference to the automatic
+#           style(s) 'DeepA' (-> 'DeepB' when chain) sits on one more element at the far end
+#   side    body | master (header / footer / a shape of a master page)
+#   limit   None: the interpreter's recursion limit as the check finds it;  n: the application runs with sys.setrecursionlimit(n)
+# Everything the oracle does here is iterative (explicit stacks, flat event lists), so it cannot run out of stack itself.
+DEEP_SHAPES = {
+    'span':    ((NS['text'], 'p'), [(NS['text'], 'span')], (NS['text'], 'span')),
+    'list':    (None, [(NS['text'], 'list'), (NS['text'], 'list-item')], (NS['text'], 'p')),
+    'group':   (None, [(NS['draw'], 'g')], (NS['draw'], 'frame')),
+    'table':   (None, [(NS['table'], 'table'), (NS['table'], 'table-row'), (NS['table'], 'table-cell')], (NS['text'], 'p')),
+    'section': (None, [(NS['text'], 'section')], (NS['text'], 'h')),
+}
+DEEP_REFS = {
+    'text':  ((NS['text'], 'style-name'), u'DeepA', 'paragraph'),
+    'draw':  ((NS['draw'], 'style-name'), u'DeepA', 'graphic'),
+    'class': ((NS['text'], 'class-names'), u'Missing  DeepA', 'paragraph'),
+    'table': ((NS['table'], 'style-name'), u'DeepA', 'table-cell'),
+}
+
+
+def realise_deep(c):
+    """the real document of a deep case, built outside-in with the plain API (one addElement per level)"""
+    from odf import opendocument
+    from odf.element import Element
+    d = opendocument.OpenDocumentText()
+    b = _Build()
+    holderq, units, endq = DEEP_SHAPES[c['shape']]
+    a, val, kind = DEEP_REFS[c['ref']]
+    auto = [style_recipe('text', 'Shallow', kidrefs=[((NS['fo'], 'color'), '#010203')]),
+            style_recipe(kind, 'DeepA', refs=([((NS['style'], 'list-style-name'), 'DeepB')] if c['chain'] else []),
+                         kidrefs=[((NS['fo'], 'color'), '#040506')] if KINDS[kind][2] is None or not c['chain'] else []),
+            style_recipe('text', 'Unused')]
+    if c['chain']:
+        auto.append(style_recipe('list', 'DeepB'))
+    b.add_styles(d, [style_recipe('paragraph', 'Common1')], auto)
+    tsn = (NS['text'], 'style-name')
+    if c['side'] == 'body':
+        top = main_of(d)
+    else:
+        mp = b.build(el((NS['style'], 'master-page'), [(STYLE_NAME, 'Standard')]))
+        d.masterstyles.addElement(mp, check_grammar=False)
+        if c['shape'] == 'group':
+            top = mp
+        else:
+            top = b.build(el((NS['style'], ['header', 'footer'][c['depth'] % 2])))
+            mp.addElement(top, check_grammar=False)
+    top.addElement(b.build(el((NS['text'], 'p'), [(tsn, 'Shallow')], text='near the surface')), check_grammar=False)
+    cur = top
+    if holderq is not None:
+        cur = Element(qname=holderq, check_grammar=False)
+        top.addElement(cur, check_grammar=False)
+    for i in range(c['depth']):
+        n = Element(qname=units[i % len(units)], check_grammar=False)
+        cur.addElement(n, check_grammar=False)
+        cur = n
+    cur.addElement(b.build(el(endq, [(a, val)], text='deep down')), check_grammar=False)
+    d.c10_problems = b.problems
+    d.c10_build = b
+    return d
+
+
+def flat_mem(node):
+    """an in-memory node as a flat list of events ('S', qname, sorted attributes) / ('T', text) / ('E',); adjacent text
+    merged, empty text dropped (what a parser reports for its serialisation)"""
+    out = []
+    todo = [node]
+    while todo:
+        n = todo.pop()
+        if n is None:
+            out.append(('E',))
+        elif n.nodeType == 1:
+            out.append(('S', (n.qname[0], n.qname[1]), tuple(sorted(((q[0], q[1]), u'%s' % (v,)) for q, v in n.attributes.items()))))
+            todo.append(None)
+            todo.extend(reversed(list(n.childNodes)))
+        elif n.data:
+            if out and out[-1][0] == 'T':
+                out[-1] = ('T', out[-1][1] + n.data)
+            else:
+                out.append(('T', n.data))
+    return out
+
+
+def flat_part(data):
+    """a written part (expat, namespace aware) as {qname of a child of the document element: its event list}"""
+    p = xml.parsers.expat.ParserCreate(namespace_separator='\x01')
+    p.buffer_text = True
+    depth = [0]
+    sections = {}
+    cur = [None]
+    def q(name):
+        if '\x01' in name:
+            ns, l = name.split('\x01', 1)
+            return (ns, l)
+        return (u'', name)
+    def start(name, attrs):
+        depth[0] += 1
+        if depth[0] == 2:
+            cur[0] = sections.setdefault(q(name), [])
+        if depth[0] >= 2:
+            cur[0].append(('S', q(name), tuple(sorted((q(k), v) for k, v in attrs.items()))))
+    def end(name):
+        if depth[0] >= 2:
+            cur[0].append(('E',))
+        depth[0] -= 1
+    def chars(s):
+        if depth[0] >= 2 and s:
+            if cur[0][-1][0] == 'T':
+                cur[0][-1] = ('T', cur[0][-1][1] + s)
+            else:
+                cur[0].append(('T', s))
+    p.StartElementHandler = start; p.EndElementHandler = end; p.CharacterDataHandler = chars
+    p.Parse(data, True)
+    return sections
+
+
+def flat_children(events):
+    """the element children of the element whose event list this is, each as a tuple of its own events"""
+    out, level, begin = [], 0, None
+    for i, ev in enumerate(events):
+        if ev[0] == 'S':
+            level += 1
+            if level == 2:
+                begin = i
+        elif ev[0] == 'E':
+            if level == 2:
+                out.append(tuple(events[begin:i + 1]))
+            level -= 1
+    return out
+
+
+def flat_names(events, schema, listy):
+    """(attribute, written value, name) of every style-reference site in an event list"""
+    out = []
+    for ev in events:
+        if ev[0] == 'S':
+            for k, v in ev[2]:
+                if k in schema and v:
+                    for name in ([x for x in XML_SPACE.split(v) if x] if k in listy else [v]):
+                        out.append((k, v, name))
+    return out
+
+
+def flat_style_name(events):
+    for k, v in events[0][2]:
+        if k == STYLE_NAME:
+            return v
+    return None
+
+
+def oracle_deep(doc, c, T):
+    """the property on ONE save of a deeply nested document.  returns (failures, sites, outcome);
+    outcome = 'saved' | 'refused:<exception>' (a save that raises wrote nothing the property speaks about)"""
+    import sys
+    schema = set(T['schema']); listy = set(T['listTyped'])
+    _quiet_abandoned_zipfiles()
+    buf = io.BytesIO()
+    old_limit = sys.getrecursionlimit()
+    try:
+        if c.get('limit'):
+            sys.setrecursionlimit(c['limit'])
+        try:
+            _do_save(doc, c.get('entry', 'save'), buf)
+        except RecursionError as ex:
+            return [], 0, 'refused:' + type(ex).__name__
+    finally:
+        sys.setrecursionlimit(old_limit)
+    fails = list(getattr(doc, 'c10_problems', []))
+    sites = 0
+    try:
+        z = zipfile.ZipFile(io.BytesIO(buf.getvalue()))
+        parts = {'content.xml': flat_part(z.read('content.xml')), 'styles.xml': flat_part(z.read('styles.xml'))}
+    except (zipfile.BadZipFile, KeyError, xml.parsers.expat.ExpatError) as ex:
+        return fails + [('deep-nesting:package-unreadable', 'save() returned normally; reading content.xml / styles.xml of what it '
+                         'wrote fails with %r' % (ex,))], 0, 'saved'
+    mem_auto = [(u'%s' % (e.attributes.get(STYLE_NAME),), tuple(flat_mem(e)), e.qname[1])
+                for e in doc.automaticstyles.childNodes if e.nodeType == 1 and e.attributes.get(STYLE_NAME) is not None]
+    mem_auto_names = set(nm for nm, _e, _q in mem_auto)
+    common_names = set(flat_style_name(s) for s in flat_children(parts['styles.xml'].get((NS['office'], 'styles'), [])))
+    for pname, q, node, what in (('content.xml', (NS['office'], 'body'), doc.body, 'body'),
+                                 ('styles.xml', (NS['office'], 'master-styles'), doc.masterstyles, 'master styles')):
+        got = parts[pname].get(q, [])
+        want = flat_mem(node)
+        if got != want and (got or node.childNodes):
+            at = 0
+            while at < min(len(got), len(want)) and got[at] == want[at]:
+                at += 1
+            fails.append(('deep-nesting:part-of-wrong-document:' + pname, '%s: <office:%s> is not the one of the document (%d events written, '
+                          '%d in memory, first difference at event %d)' % (pname, q[1], len(got), len(want), at)))
+        written = flat_children(parts[pname].get((NS['office'], 'automatic-styles'), []))
+        wnames = [flat_style_name(w) for w in written]
+        # the automatic styles the in-memory section refers to, directly or through automatic styles (least fixpoint)
+        def closure(seed_events):
+            reach = set(n for _k, _v, n in flat_names(seed_events, schema, listy))
+            taken, grown = [], True
+            while grown:
+                grown = False
+                for i, (nm, ev, _q) in enumerate(mem_auto):
+                    if i not in taken and nm in reach:
+                        taken.append(i); reach.update(n for _k, _v, n in flat_names(ev, schema, listy)); grown = True
+            return taken
+        expected = closure(want)
+        for i in expected:
+            nm, ev, qn = mem_auto[i]
+            if ev not in written:
+                fails.append(('deep-nesting:referenced-style-missing:' + pname,
+                              '%s lacks the automatic style <%s style:name=%r> which the %s of the document refers to (nesting: %s x %d, %s)'
+                              % (pname, qn, nm, what, c['shape'], c['depth'],
+                                 'recursion limit %s' % (c.get('limit') or 'as found'))))
+        allowed = closure(want + (flat_mem(doc.styles) if pname == 'content.xml' else []))
+        for w, nm in zip(written, wnames):
+            cands = [ev for n2, ev, _q in mem_auto if n2 == nm]
+            if not cands:
+                fails.append(('deep-nesting:phantom-style', '%s writes automatic style %r that the document does not have' % (pname, nm)))
+            elif w not in cands:
+                fails.append(('deep-nesting:definition-changed', '%s writes automatic style %r with a different definition' % (pname, nm)))
+            else:
+                if written.count(w) > cands.count(w):
+                    fails.append(('deep-nesting:written-twice', '%s writes the definition of %r more often than the document has it' % (pname, nm)))
+                if not any(mem_auto[i][1] == w for i in allowed):
+                    fails.append(('deep-nesting:unreferenced-style-written', '%s writes automatic style %r although nothing in this '
+                                  'part refers to it' % (pname, nm)))
+        # every reference site of the WRITTEN section (and of the written automatic styles) resolves in its own part
+        wset = set(wnames)
+        for where, events in [(q[1], got)] + [('automatic-styles', list(w)) for w in written]:
+            for k, v, name in flat_names(events, schema, listy):
+                sites += 1
+                if name in mem_auto_names and name not in wset and name not in common_names:
+                    fails.append(('deep-nesting:dangling:' + pname, '%s: %s="%s" below <office:%s> refers to automatic style %r of the '
+                                  'document, which is not written to this part' % (pname, k[1], v, where, name)))
+    return fails, sites, 'saved'
+
+
+def correspond_deep(chk, doc, c, T, drv_lines, pending, cases, case):
+    """the real selection at the two call sites (elements kept, as flags over automaticstyles.childNodes) vs the model on the
+    dumped tree.  Only `_used_auto_styles` is observed (no extra frames inside the scan); a scan that the interpreter refuses
+    (RecursionError) selects nothing: it is run again with a recursion limit that is high enough and that result is compared."""
+    import sys
+    coder = Coder(T)
+    toks = []
+    for top in (doc.styles, doc.automaticstyles, doc.masterstyles, doc.body):
+        dump_node(top, coder, toks)
+    kids = list(doc.automaticstyles.childNodes)
+    old_limit = sys.getrecursionlimit()
+    try:
+        if c.get('limit'):
+            sys.setrecursionlimit(c['limit'])
+        try:
+            kept_c = doc._used_auto_styles([doc.styles, doc.body])
+            kept_s = doc._used_auto_styles([doc.masterstyles])
+        except RecursionError:
+            # the interpreter refused the scan under the limit of the case: the model (which has no such limit) is compared
+            # with what the same function selects when it is given the stack it needs
+            chk.count('deep_scan_refused_under_the_limit_of_the_case')
+            sys.setrecursionlimit(max(old_limit, 4 * c['depth'] + 1000))
+            try:
+                kept_c = doc._used_auto_styles([doc.styles, doc.body])
+                kept_s = doc._used_auto_styles([doc.masterstyles])
+            except RecursionError:
+                chk.count('deep_scan_refused_by_the_interpreter')
+                return
+    finally:
+        sys.setrecursionlimit(old_limit)
+    bits = lambda kept: ''.join('1' if any(k is e for k in kept) else '0' for e in kids) or '~'
+    impl = '%s | %s | %d %d' % (bits(kept_c), bits(kept_s), len(kept_c), len(kept_s))
+    drv_lines.append('kept ' + ' '.join(toks))
+    pending.append((('deep', impl), True))
+    cases.append(case)
+    chk.count('deep_documents_sent_to_the_model')
+
+
+def deep_cases(tier, rng):
+    """few documents: depths below, around and beyond the recursion limit x the shapes, the far-end reference from the body and
+    from a master page, directly and through another automatic style; two with a recursion limit set by the application"""
+    shapes = sorted(DEEP_SHAPES)
+    refs = {'span': 'text', 'list': 'class', 'group': 'draw', 'table': 'text', 'section': 'text'}
+    out = []
+    depths = [400, 495, 600, 900, 1200]
+    k = 0
+    for i, depth in enumerate(depths):
+        for side in ('body', 'master'):
+            k += 1
+            shape = shapes[k % len(shapes)]
+            out.append({'shape': shape, 'depth': depth, 'side': side, 'ref': refs[shape], 'chain': k % 3 == 0, 'limit': None,
+                        'entry': ['save', 'write'][k % 2]})
+    out.append({'shape': 'span', 'depth': 1500, 'side': 'body', 'ref': 'text', 'chain': True, 'limit': 2500, 'entry': 'save'})
+    out.append({'shape': 'table', 'depth': 250, 'side': 'master', 'ref': 'table', 'chain': False, 'limit': 400, 'entry': 'save'})
+    n = 40 if tier == 'thorough' else 6
+    for _ in range(n):
+        shape = rng.choice(shapes)
+        limit = rng.choice([None, None, 400, 1500, 3000])
+        base = limit or 1000
+        out.append({'shape': shape, 'depth': int(base * rng.choice([0.3, 0.45, 0.5, 0.55, 0.7, 0.9, 0.97, 1.2])) + rng.randint(-5, 5),
+                    'side': rng.choice(['body', 'master']), 'ref': rng.choice([refs[shape], refs[shape], 'class']),
+                    'chain': rng.random() < 0.5, 'limit': limit, 'entry': rng.choice(['save', 'write'])})
+    return out
+
+
+def run_deep(chk, c, T, lines, pend, cases):
+    case = {'deep': c}
+    doc = realise_deep(c)
+    fails, sites, outcome = oracle_deep(doc, c, T)
+    chk.case(json.dumps(case, sort_keys=True), nontrivial=True,
+             sample={'deep': c, 'outcome': outcome, 'sites': sites, 'failures': sorted(set(f[0] for f in fails))})
+    chk.count('gen_deep')
+    chk.count('deep_' + outcome.replace(':', '_'))
+    chk.count('deep_%s_%s' % (c['side'], outcome.split(':')[0]))
+    chk.count('deep_reference_sites_checked', sites)
+    seen = set()
+    for sig, detail in fails:
+        if sig not in seen:
+            seen.add(sig)
+            chk.fail(sig, case, detail)
+    correspond_deep(chk, realise_deep(c), c, T, lines, pend, cases, case)
+    return fails
+
+
 def run(chk, replay=None):
     from odf import opendocument
     chk.rule = ('structured: every schema style-reference attribute x {body, master page} x {direct, through an automatic style}; '
@@ -1234,8 +1563,22 @@ def run(chk, replay=None):
                 'styles referenced from the body / a new footer / a new master page (also chains, redefinitions, removals; in embedded '
                 'objects too) and saves again: the final package is judged by the same oracle and against the first save of a never '
                 'saved twin; the tree after the history is sent to the model; '
+                'deep: a few documents nested 400..1200 levels (text:span / list / draw:g / table in cell / section; also 0.3..1.2 x a recursion '
+                'limit the application set) whose only reference to an automatic style (also through a second one, also in a list-typed '
+                'attribute) sits at the far end, in the body / a master page: save() raises or the package keeps the style (flat, iterative '
+                'oracle); the real selection is compared with the model on the dumped tree; '
                 'non-trivial = at least one reference site and one automatic style')
     T = translate_styles.tables()
+    if replay is not None and 'deep' in replay['input']:
+        c = replay['input']['deep']
+        fails, sites, outcome = oracle_deep(realise_deep(c), c, T)
+        print('replay: nesting %s x %d in the %s, recursion limit %s: save() %s' % (c['shape'], c['depth'], c['side'], c.get('limit') or 'as found', outcome))
+        for sig, detail in fails:
+            print('replay: %s: %s' % (sig, detail))
+        want = replay.get('signature')
+        hit = [f for f in fails if want is None or f[0] == want]
+        print('replay: %d reference sites, %d failures (%d with the recorded signature)' % (sites, len(fails), len(hit)))
+        return 1 if hit else 0
     if replay is not None and 'history' in replay['input']:
         recipe, history = replay['input']['recipe'], replay['input']['history']
         fails0, new, sites, trace = judge_history(recipe, history, T)
@@ -1265,7 +1608,7 @@ def run(chk, replay=None):
                                'pySpaceTable': len(T['pySpace']),
                                'candidates_probed': T['candidates']}
     # 2 prove
-    chk.prove(modules=['OdfModel.Props.C10', 'OdfModel.Props.C10Hist'], drivers=['drv_styles'])
+    chk.prove(modules=['OdfModel.Props.C10', 'OdfModel.Props.C10Hist', 'OdfModel.Props.C10Deep'], drivers=['drv_styles'])
     drv = chk.driver('drv_styles')
     ans = drv.ask('tables')
     chk.obligation('driver tables = translator tables',
@@ -1289,9 +1632,19 @@ def run(chk, replay=None):
     for k in range(nhist):
         recipe, history, info = gen_history_random(chk.rng, T)
         run_history(chk, recipe, history, info, T, lines, pend, recipes, with_model=(k % 2 == 0))
+    # nesting depths around and beyond the interpreter's limits
+    for c in deep_cases(chk.tier, chk.rng):
+        run_deep(chk, c, T, lines, pend, recipes)
     answers = drv.batch(lines)
     for (impl, ordered), model, case in zip(pend, answers, recipes):
         chk.corr()
+        if isinstance(impl, tuple):
+            # deep documents: flags and counts only (the scan is not instrumented there)
+            f = [x.strip() for x in model.strip().split('|')]
+            got = '%s | %s | %s' % (f[1], f[3], f[4]) if len(f) == 5 and f[0].startswith('ok') else model.strip()
+            if impl[1] != got:
+                chk.corr_diff(case, impl[1], got, 'kept flags (content.xml) | kept flags (styles.xml) | counts, deeply nested document')
+            continue
         if impl != model.strip():
             chk.corr_diff(case, impl, model, 'final name list | kept flags (content.xml) | names | flags (styles.xml) | counts')
         if not ordered:
